@@ -188,63 +188,89 @@ def _norm2(A):
     return float(np.linalg.norm(A, 2)) if A.size else 0.0
 
 
+def solver_class(test):
+    """lstsq: numpy.linalg.lstsq on the unweighted systems; pinv: pseudo-inverse of the row-scaled systems;
+    inv: inverse of the normal equations of the row-scaled system; cnls: iterative fit of the Boukamp-weighted problem."""
+    if test == "cnls":
+        return "cnls"
+    if test == "complex-inv":
+        return "inv"
+    return "pinv" if test.endswith("-inv") else "lstsq"
+
+
 def gate_stats(f, tau, var, test, admittance, add_c, add_l):
     """Conditioning statistics of an instance (all from the harness's own matrices, never from library output).
 
     ratio    #unknowns / #equations of the main system
     perdec   RC elements per decade of the (extended) time-constant range
     dyn      max|X| / min|X|
-    cond_s   largest 2-norm condition number of the row-scaled (rows / |X_i|, Boukamp weighting) systems
-    condn_s  the same with unit-norm columns in addition (what the inverse of the normal equations feels)
-    cond_u   largest condition number of the unscaled systems
-    kappa_s / kappa_u   first-order bound, in units of machine epsilon, on the relative residual (Re and Im part,
-             both divided by |X_i|) that a backward-stable solver of the row-scaled / unscaled systems leaves:
+    cond     largest 2-norm condition number of the linear systems in the form the variant's documentation describes
+             (unweighted for the lstsq variants, rows divided by |X_i| (Boukamp weighting) for the others)
+    condn    the same after scaling every column to unit norm (what an inverse of the normal equations feels)
+    kappa    first-order bound, in units of machine epsilon, on the relative residual (Re and Im part, both divided
+             by |X_i|) that a backward-stable solver of those systems leaves:
                  sum over systems of  || S2 A_full M^+ ||_2 * ( ||M||_2 ||x||_2 + ||c||_2 )
-             M x = c is the system as solved (row-scaled or not), A_full the real-over-imaginary response of the same
-             variables (so the amplification of "fit one part, predict the other" of the real and imaginary tests is
-             included), S2 = diag(1/|X|) on both halves.
-    kpar_s / kpar_u     the same bound for the contribution-weighted parameter error relative to the largest term.
+             M x = c is the system as solved, A_full the real-over-imaginary response of the same variables (so the
+             amplification of "fit one part, predict the other" of the real and imaginary tests is included),
+             S2 = diag(1/|X|) on both halves.
+    kpar     the same bound for the contribution-weighted parameter error relative to the largest term.
     """
     f = np.asarray(f, dtype=float)
     var = np.asarray(var, dtype=float)
     kind = base_kind(test)
+    scaled = solver_class(test) != "lstsq"
     B = basis(f, tau, admittance, add_c, add_l)
     X = B @ var
     aX = np.abs(X)
     unk, eq = counts(len(f), len(tau), kind, add_c, add_l)
-    st = {"ratio": unk / eq, "perdec": (len(tau) - 1) / max(1e-9, np.log10(tau[-1] / tau[0])),
-          "dyn": float(aX.max() / aX.min()) if aX.min() > 0 else np.inf, "cond_s": 1.0, "condn_s": 1.0, "cond_u": 1.0,
-          "kappa_s": 0.0, "kappa_u": 0.0, "kpar_s": 0.0, "kpar_u": 0.0}
+    st = {"ratio": unk / eq, "perdec": float((len(tau) - 1) / max(1e-9, np.log10(tau[-1] / tau[0]))),
+          "dyn": float(aX.max() / aX.min()) if aX.min() > 0 else np.inf, "cond": 1.0, "condn": 1.0, "kappa": 0.0, "kpar": 0.0}
     if not np.isfinite(st["dyn"]):
-        for k in ("cond_s", "condn_s", "cond_u", "kappa_s", "kappa_u", "kpar_s", "kpar_u"):
-            st[k] = np.inf
+        st.update(cond=np.inf, condn=np.inf, kappa=np.inf, kpar=np.inf)
         return st
     Bmax = np.abs(B).max(axis=0)
     top = float((Bmax * np.abs(var)).max())
     s1 = 1.0 / aX
     s2 = np.tile(s1, 2)
     for A, sl, rep in systems(f, tau, kind, admittance, add_c, add_l):
-        rows_s = np.tile(s1, rep)
-        Afull = np.vstack([B.real[:, sl], B.imag[:, sl]])
         x = var[sl]
         c = A @ x
-        for tag, M, cc in (("s", A * rows_s[:, None], c * rows_s), ("u", A, c)):
-            sv = _svals(M)
-            cond = float(sv[0] / sv[-1]) if sv[-1] > 0 else np.inf
-            st["cond_" + tag] = max(st["cond_" + tag], cond)
-            if not np.isfinite(cond):
-                st["kappa_" + tag] = st["kpar_" + tag] = np.inf
-                continue
-            Mp = np.linalg.pinv(M, rcond=1e-300)
-            load = sv[0] * float(np.linalg.norm(x)) + float(np.linalg.norm(cc))
-            st["kappa_" + tag] += _norm2((Afull * s2[:, None]) @ Mp) * load
-            st["kpar_" + tag] += _norm2(Bmax[sl][:, None] * Mp) * load / top
-            if tag == "s":
-                n = np.linalg.norm(M, axis=0)
-                n[n == 0] = 1.0
-                sv = _svals(M / n)
-                st["condn_s"] = max(st["condn_s"], float(sv[0] / sv[-1]) if sv[-1] > 0 else np.inf)
+        M, cc = A, c
+        if scaled:
+            rows = np.tile(s1, rep)
+            M, cc = A * rows[:, None], c * rows
+        U, sv, Vt = np.linalg.svd(M, full_matrices=False)
+        if not sv[-1] > 0:
+            st.update(cond=np.inf, condn=np.inf, kappa=np.inf, kpar=np.inf)
+            return st
+        st["cond"] = max(st["cond"], float(sv[0] / sv[-1]))
+        Mp = (Vt.T / sv) @ U.T
+        Afull = np.vstack([B.real[:, sl], B.imag[:, sl]])
+        load = float(sv[0] * np.linalg.norm(x) + np.linalg.norm(cc))
+        st["kappa"] += float(np.linalg.norm((Afull * s2[:, None]) @ Mp, 2)) * load
+        st["kpar"] += float(np.linalg.norm(Bmax[sl][:, None] * Mp, 2)) * load / top
+        n = np.linalg.norm(M, axis=0)
+        n[n == 0] = 1.0
+        svn = _svals(M / n)
+        st["condn"] = max(st["condn"], float(svn[0] / svn[-1]) if svn[-1] > 0 else np.inf)
     return st
+
+
+def placeholder_artefact(f, Z, test, admittance, add_c):
+    """Size (relative to |Z|) of the error that the hard-coded placeholder constants of the matrix-inversion real test
+    leave in its result: capacitance 1e-18 (F, or 1/F in the impedance form) and, for admittance, inductance -1e18 H."""
+    if test != "real-inv":
+        return 0.0
+    w = 2 * np.pi * np.asarray(f, dtype=float)
+    aZ = np.abs(np.asarray(Z))
+    a = 0.0
+    if admittance:
+        a = float(1e-18 * (aZ / w).max())
+        if add_c:
+            a = max(a, float(1e-18 * (w * aZ).max()))
+    elif add_c:
+        a = float(1e-18 * (1.0 / (w * aZ)).max())
+    return a
 
 
 def circuit_variables(circuit, admittance, add_c, add_l):
